@@ -159,6 +159,8 @@ def gen_params(rng, max_hosts=120, allow_alpha1=False, small_bias=True):
     OS = rng.randint(1, 5)
     if rng.random() < 0.05:
         OS = rng.randint(10, 13)      # more names than single digits
+    if not uniform and rng.random() < 0.03:
+        S = rng.randint(65, 72)       # more services than bits in a word
     P = rng.randint(1, 5)
     p = {"num_hosts": n, "num_services": S, "num_os": OS,
          "num_processes": P, "uniform": uniform}
@@ -431,7 +433,9 @@ def many_services_spec(rng):
     hi = srvs[62:]
     hosts = {}
     for k in keys:
-        hosts[k] = {"os": doc["os"][0], "services": list(srvs),
+        hosts[k] = {"os": doc["os"][0],
+                    "services": ["s1"] + rng.sample(srvs[2:], rng.randint(
+                        20, 68)),
                     "processes": list(doc["processes"]),
                     "firewall": {src: rng.sample(hi, rng.randint(
                         len(hi) - 2, len(hi))) for src in keys}}
